@@ -20,6 +20,7 @@ LEVEL_TEXT = (
     "current scope; evaluators that run a function's action are built on that function's own context"
     "; a loaded module is reused under any candidate name and the candidate files correspond to the context names; no importer of a re-loaded module stays loaded; set_global_ctx switches context, global table, current scope and scope stack together; legacy triggers are built in the decorating file's context; a module's globals hold classes as plain values, never closure cells"
     "; star imports copy public names only; calls through function variables and bound methods run on the caller's evaluator; the file-level evaluator of a function variable is never handed on to run callbacks"
+    '; set_global_ctx is called from the script-level API only; single-file module candidates resolve relative imports against their own directory; `from m import *` honours __all__; pyscript modules named like allow-listed modules are still looked up'
 )
 LEVEL_NOTE = "trusted: host importlib.util.resolve_name as oracle for relative names; scenario objects are distinct opaque symbols; file-system lookups are not modelled"
 TECHNIQUE = "scenario-based abstract interpretation of EvalFunc.call and module_import (heap snapshots at the body / concrete string evaluation), who-may-write table, ordered events"
